@@ -25,6 +25,17 @@ Theorem C15_secret_files_saved_secure :
 Proof. split; reflexivity. Qed.
 Print Assumptions C15_secret_files_saved_secure.
 
+(* obligation tied to the source (key.Save): the path handed to fs.CreateSecureFile is the very file
+   the encoder writes into and the file that ends up at the target - since the fix of C13's torn
+   files that is the temporary file, renamed over the target after Sync and Close; the mode of a
+   file travels with it through rename(2). So the file life modelled by [secure_file_trace]
+   (create/truncate, chmod, reopen, write) is the life of the file that holds the secret, with
+   [st] = whatever a dead earlier Save left at the temporary path. *)
+Theorem C15_secure_mode_precedes_content :
+  save_secure_on_written_file = true /\ (save_in_place = true \/ save_atomic_rename = true).
+Proof. split; [reflexivity | first [left; reflexivity | right; reflexivity]]. Qed.
+Print Assumptions C15_secure_mode_precedes_content.
+
 (* for EVERY umask (any integer) and every file that holds the long-term key or a share
    (drand_id.private, dist_key.private, dkg.db), created by the code as it is, the file has no
    group/other permission bit at any moment content is written to it *)
